@@ -60,7 +60,7 @@ def rand_format(r):
 
 def cases(tier, seed, shard, nshards):
     r = rng_for(seed, shard, "c06")
-    n = tier_pick(tier, 48000, 1000000) // nshards
+    n = tier_pick(tier, 96000, 5000000) // nshards
     for _ in range(n):
         yield {"lib": rand_library(r), "fmt": rand_format(r)}
 
